@@ -317,7 +317,9 @@ def r7(chk, prog, m):
         if ok:
             chk.proven(rid, fname, callee, calls[0].locstr(), "(array, length, %d, comparator)" % ELEM)
         else:
-            chk.refuted(rid, fname, callee, f.entry.term.locstr(), "%s is not called with (array, length, sizeof(void*), comparator)" % callee)
+            # the argument shape is not the direct one; what reaches the C library is decided by evaluation (C07.R8)
+            chk.undecided(rid, fname, callee, f.entry.term.locstr(),
+                          "%s is not called directly with (arr->array, arr->length, sizeof(void*), comparator); see C07.R8" % callee)
 
 
 # ---------------------------------------------------------------------------
